@@ -2,11 +2,13 @@
 From Coq Require Import List String.
 From SCC Require Import Base.Sexp Model.RunBase Model.RunPM Model.RunX86.
 From SCC Require Import Base.Sexp Model.RunBase Model.RunPM Model.RunStages.
+From SCC Require Import Model.RunLin.
 Open Scope string_scope.
 
 Definition dispatch (cmd : string) (input : string) : string :=
   match cmd with
   | "pm" => run_pm input
+  | "lin" => run_lin input
   | "codegen-x86" => run_codegen_x86 input
   | "stages" => run_stages input
   | _ => "BAD - unknown command " ++ cmd ++ nl
